@@ -77,7 +77,8 @@ REFLECT = {"<": ">", "<=": ">=", ">": "<", ">=": "<=", "==": "==", "!=": "!=", "
 
 
 def _cmp(var, op, lit, rng, reversed_ok):
-    if reversed_ok and op != "~=" and "*" not in lit and rng.random() < 0.2:
+    if reversed_ok and rng.random() < (0.2 if (op != "~=" and "*" not in lit) else 0.12):
+        # "lit" ~= name and wildcard literals on the left are valid PEP 508 too (and are not the mirror image of the atom with the variable first)
         return f"{q(lit)} {REFLECT[op]} {var}"
     return f"{var} {op} {q(lit)}"
 
